@@ -118,7 +118,9 @@ def run_valid(case, ctx):
         want = [_exact(r["extra"][k]) for r in rows]
         got = df[name].tolist()
         ctx.check(got == want, "extra-values", lambda: f"extra {name}: {got} != {want}")
-    got_c = [c.rstrip("\r\n") for c in comments]
+    # the line terminator is not part of a comment; only a text stream that hands out raw CR LF lines itself (a StringIO
+    # built from such text does no newline translation) may leave the CR on the comment
+    got_c = [c.rstrip("\r\n") if case["kind"] == "str" else c.rstrip("\n") for c in comments]
     ctx.check(got_c == doc["comments"], "comments", lambda: f"{got_c!r} != {doc['comments']!r}")
     if doc["unrequested"]:
         # "fields beyond the requested columns only cause a warning": some warning (whatever its category or wording)
@@ -353,7 +355,7 @@ def population_case(draw, tier):
 
 def _tree_signature(t):
     return (len(t), t.pid().tolist(), t.type().tolist(), [t.get_ndata(c).tolist() for c in "xyzr"],
-            [c.rstrip("\r\n") for c in t.comments])
+            [c.rstrip("\n") for c in t.comments])
 
 
 def run_population(case, ctx):
@@ -428,6 +430,47 @@ def run_population(case, ctx):
                       lambda: f"file {i}: {st_} {sig if st_ != 'ok' else sig[0]} vs {len(item['doc']['rows'])} rows")
 
 
+# ----------------------------------------------------------------------------- encoding detection on long files
+@st.composite
+def detect_late_case(draw, tier):
+    """A long file (70-140 KiB of pure-ASCII rows) whose only non-ASCII bytes come late - a trailing author comment in
+    UTF-8 or Latin-1 - read with encoding='detect' from a path or a byte stream."""
+    return {"rows": draw(st.integers(2300, 4500)), "enc": draw(st.sampled_from(["utf-8", "utf-8", "latin-1"])),
+            "kind": draw(st.sampled_from(["path", "bytes"])), "where": draw(st.sampled_from(["end", "end", "three-quarters"])),
+            "note": draw(st.sampled_from(["tracé par Zoë", "Größe geprüft", "señal débil", "naïve façade"]))}
+
+
+def run_detect_late(case, ctx):
+    from swcgeom.core.swc_utils import read_swc
+
+    n = case["rows"]
+    lines = [f"{i + 1} 3 {i * 0.5:.1f} {(i % 7) * 0.25:.2f} 0.0 1.0 {i if i else -1}" for i in range(n)]
+    at = n if case["where"] == "end" else (3 * n) // 4
+    lines.insert(at, "# " + case["note"])
+    data = ("\n".join(lines) + "\n").encode(case["enc"])
+    ctx.cls("late-bytes:" + case["enc"], "detect-from:" + case["kind"])
+    ctx.nontrivial(True)
+    if case["kind"] == "bytes":
+        src = io.BytesIO(data)
+    else:
+        src = os.path.join(ctx.tmpdir, "late.swc")
+        with open(src, "wb") as f:
+            f.write(data)
+    try:
+        df, comments = read_swc(src, encoding="detect")
+    except Exception:  # noqa - a loud refusal (the guessed encoding cannot decode the file) is within the statement
+        ctx.cls("detect:refused")
+        return
+    # whatever encoding was guessed, nothing may have been dropped or patched over: every row is there and no byte was
+    # replaced by the substitution character
+    ctx.check(len(df) == n and df["id"].iloc[-1] == n - 1 + df["id"].iloc[0], "detect/one-node-per-data-row", f"{len(df)} rows for {n}")
+    ctx.check(len(comments) == 1, "detect/comment-returned", lambda: f"{comments!r}")
+    ctx.check("\ufffd" not in comments[0], "detect/undecodable-bytes-were-replaced-instead-of-raising",
+              lambda: f"comment came back as {comments[0]!r} (file stored as {case['enc']})")
+    if comments[0].strip() == case["note"]:
+        ctx.cls("detect:comment-exact")
+
+
 # ----------------------------------------------------------------------------- coverage-guided campaigns (thorough tier)
 SWC_MODULES = ["swcgeom.core.swc_utils.io", "swcgeom.utils.file", "swcgeom.core.swc_utils.normalizer"]
 
@@ -494,6 +537,8 @@ SUBCHECKS = [
                   "ids:parents-first-ids-down": 40, "ids:parents-first-ids-scattered": 40}),
     Sub("population", population_case, run_population, quick=300, thorough=2500, shards_quick=2,
         required={"pop-enc:detect": 60, "files:ascii+utf-8": 20}),
+    Sub("detect_late", detect_late_case, run_detect_late, quick=96, thorough=800, shards_quick=4,
+        required={"late-bytes:utf-8": 10, "detect-from:path": 10}),
     # Atheris / libFuzzer, thorough tier (the line matcher is a C regular expression: little coverage gradient inside it,
     # the structured targets mainly add volume, the raw target explores line / encoding / option handling)
     Fuzz("fuzz_valid", run_valid, SWC_MODULES, mode="structured", strategy=valid_case, runs_thorough=2500, shards_thorough=3,
